@@ -171,6 +171,8 @@ pub struct Model {
     /// number of live op tasks that still own a handle clone
     /// packet identifiers of the PUBREL packets the implementation wrote since the last comparison
     pub observed_pubrels: Vec<u16>,
+    /// run() returned since the last comparison (observed)
+    pub observed_run_return: bool,
     pub live_handles: usize,
     /// the long-lived worker handle (see `start_on_worker`)
     pub worker_exists: bool,
@@ -235,6 +237,7 @@ impl Model {
             wake: BTreeSet::new(),
             by_pid: std::collections::HashMap::new(),
             observed_pubrels: vec![],
+            observed_run_return: false,
             live_handles: 0,
             worker_exists: false,
             worker_busy: None,
